@@ -9,6 +9,21 @@ LEVEL_NOTE = ("Trusted base: clang 14 front end and CFG builder, the gsa-extract
               "Assumes the shipped configuration (GALOIS_USE_LONGJMP_ABORT, NDEBUG).")
 
 CHECKS = {
+    "C04": ("exhaustive evaluation, on every CFG path of the ring and tree detectors and of every executor launch site, of: "
+            "announcement guarded by token-held AND master AND previous-round-clean AND not-tainted; taint = token colour OR "
+            "process colour read before clearing; reported work recorded before token handling; own flag cleared before "
+            "forwarding, colour stored before flag, ring successor; globalTerm writers; re-arm gives the token to the master "
+            "only; executors re-arm, barrier, then report; token fields atomic with release/acquire. The two-pass argument "
+            "and the liveness bound are not mechanised.",
+            "CFG guard / def-use / ordering rules + memory-order role table over clang AST facts", "4 C04"),
+    "C05": ("exhaustive evaluation, on every CFG path of wait()/_reinit() of the six barrier implementations, of: arrival "
+            "state re-armed before the releasing store, release by the last arriver only, arrival announced after the "
+            "children, wake-ups after the own release, phase variable flipped exactly once, dissemination rounds signal then "
+            "wait on the same slot over all LogP rounds, wait() never reaches reinit, fields written by wait() initialised "
+            "by _reinit(), BarrierInstance re-initialises iff the clamped count changes, pthread return code, condition-"
+            "variable barrier state under its mutex with a generation predicate, all cross-thread fields atomic with "
+            "release/acquire/acq_rel orders. Tree index arithmetic for all counts/topologies is not decided.",
+            "CFG ordering / exactly-once rules, lock typestate, memory-order role table over clang AST facts", "4 C05"),
     "C06": ("for the memory orders the code requests: every atomic access on a promised synchronisation edge (lock and "
             "lockable hand-over, barrier arrival/departure, loop entry/return, bucket discovery, termination tokens) is "
             "classified by (function, object, kind) and must request at least the order its role needs; lock acquisition is "
